@@ -5,3 +5,4 @@ import RSVerif.Properties.C11
 #print axioms RS.given_not_restored'
 #print axioms RS.all_given_empty'
 #print axioms RS.surplus_indep
+#print axioms RS.source_adds_commute
